@@ -199,7 +199,7 @@ def _replay_reader(case):
     for fr in order:
         cid, pl = fr[2:4], fr[6:-2]
         try:
-            mode = UBXReader.parse(fr, msgmode=3).msgmode if case["rmode"] == 3 else 0
+            mode = UBXReader.parse(fr, msgmode=3).msgmode if case["rmode"] == 3 else case["rmode"]
         except Exception:  # noqa: BLE001
             continue
         w, key = C.walk_frame(mode, cid, pl, case["pbf"])
@@ -207,7 +207,7 @@ def _replay_reader(case):
         if got.get(fr) is None:
             out.append((f"conforming_payload_refused|{label}|pbf={case['pbf']}|by_reader", ""))
             continue
-        out += [(k + "|by_reader", d) for k, d in compare_parse(mode, cid, pl, case["pbf"], None, got[fr])[1]]
+        out += [(k + "|by_reader" + case.get("suffix", ""), d) for k, d in compare_parse(mode, cid, pl, case["pbf"], None, got[fr])[1]]
     return out
 
 
@@ -341,6 +341,39 @@ def eval_block(block, acc):
                     except Exception:  # noqa: BLE001
                         pass
                     record(acc, e.mode, e.clsid, pl, pbf, "alias", e.label)
+    elif kind == "collide":
+        # consecutive frames of one message type with DIFFERENT payloads but equal class, ID, length and checksum
+        # (+1, -2, +1 on three adjacent bytes), read by one reader: each delivered message decodes its own payload
+        import io
+        ents = [e for e in C.entries() if e.routed and not C.invalid_types(e.pdict) and e.clsid and e.mode in (0, 1)]
+        for e in ents[block[1]::block[2]]:
+            pl = C.build_payload(e, lambda x: 1, 1, lambda i: (5 * i + 2) % 200 + 2)
+            if pl is None or len(pl) < 3:
+                continue
+            alts = []
+            for i in sorted({0, len(pl) // 2 - 1, len(pl) - 3}):
+                if 0 <= i <= len(pl) - 3:
+                    a = bytearray(pl)
+                    a[i] = (a[i] + 1) % 256
+                    a[i + 1] = (a[i + 1] - 2) % 256
+                    a[i + 2] = (a[i + 2] + 1) % 256
+                    alts.append(bytes(a))
+            for alt in alts:
+                frames = [ref.frame(e.clsid[0], e.clsid[1], p) for p in (pl, alt, pl)]
+                assert frames[0][-2:] == frames[1][-2:]
+                for pbf in (1, 0):
+                    rd = UBXReader(io.BytesIO(b"".join(frames)), msgmode=e.mode, parsebitfield=pbf, quitonerror=0)
+                    try:
+                        got = [parsed for _, parsed in rd]
+                    except Exception as ex:  # noqa: BLE001
+                        acc.violation(f"reader_raises|{type(ex).__name__}", {"reader": [f.hex() for f in frames], "rmode": e.mode, "pbf": pbf}, str(ex))
+                        continue
+                    for p, m in zip((pl, alt, pl), got):
+                        acc.evaluations += 1
+                        st, out, n = compare_parse(e.mode, e.clsid, p, pbf, None, m)
+                        acc.transitions += n
+                        for key, detail in out:
+                            acc.violation(key + "|by_reader|after_frame_with_equal_checksum", {"reader": [f.hex() for f in frames], "rmode": e.mode, "pbf": pbf, "suffix": "|after_frame_with_equal_checksum"}, detail)
     elif kind == "afterfail":
         # ~1,000 operations that fail inside a group, then every definition parsed again in the same process
         from mc import failops
@@ -384,6 +417,7 @@ def run_tier(tier, t0):
     blocks += [("crossmode", i, 8, q) for i in range(8)]
     blocks += [("afterfail", q), ("alias", q)]
     blocks += [("reader", i, 8, q) for i in range(8)]
+    blocks += [("collide", i, 8, q) for i in range(8)]
     acc = engine.sweep(blocks, eval_block)
     routed = [e for e in ents if e.routed]
     covered = {k[0] for k in acc.outcomes}
